@@ -152,3 +152,24 @@ def many_distinct_model(seed):
             m.add([A.V(f'={i // 8 + 1}', 'BARLINES', '=')] * 3)
         m.add([x, y, A.text_cell(A.TEXT[i % len(A.TEXT)], '**text')])
     return m.close()
+
+
+# huge documents: several hundred rows, more than a hundred measures with three-digit numbers, the same split/join cycle dozens of times.
+# Far beyond every enumeration bound: thresholds (64 / 100 / 128 / 256 / 512 rows or measures), chunked processing, bounded caches, k-th occurrence.
+HUGE_UNIT = ['d', 'd', 'e', 'S0', 'd', 'c', 'J0', 'd', 'e', 'i', 'd', 'z', 'd', 'e', 'g']
+HUGE_UNIT_KERN = ['d', 'd', 'e', 'S0', 'd', 'J0', 'd', 'e', 'K', 'd', 'd', 'e', 'k', 'd', 'e']
+
+
+def huge_docs(seed, reps=45, headers=(('**kern',), ('**kern', '**text'), ('**text', '**kern', '**kern'))):
+    return [(list(h), ['k', 'e'] + HUGE_UNIT * reps + ['e'], seed) for h in headers]
+
+
+def huge_kern_docs(seed, reps=36, headers=(('**kern',), ('**kern', '**kern'))):
+    """kern-only, uniform signature rows, 4 barlines per unit (C07 / C08 / C19): about 145 measures"""
+    return [(list(h), ['k', 'e'] + HUGE_UNIT_KERN * reps + ['e'], seed) for h in headers]
+
+
+def hist_of(m):
+    """the rows below the header as a history for explore.build(): spec rows and ('g', text) tuples (terminator row dropped when the model is closed)"""
+    hist = [('g', r) if k == 'g' else [c.spec for c in r] for k, r in m.rows[m.header_row + 1:]]
+    return hist[:-1] if m.width() == 0 and hist and not isinstance(hist[-1], tuple) else hist
